@@ -1,3 +1,4 @@
+pub mod alloc;
 pub mod engine;
 pub mod gen;
 pub mod oracle;
@@ -24,7 +25,9 @@ macro_rules! dispatch {
 			"C14" => Some($f::<props::c14::C14>($($arg),*)),
 			"C15" => Some($f::<props::c15::C15>($($arg),*)),
 			"C16" => Some($f::<props::c16::C16>($($arg),*)),
+			"C18" => Some($f::<props::c18::C18>($($arg),*)),
 			"C19" => Some($f::<props::c19::C19>($($arg),*)),
+			"C20" => Some($f::<props::c20::C20>($($arg),*)),
 			_ => None,
 		}
 	};
